@@ -1135,3 +1135,53 @@ pub fn reorder(rng: &mut Rng, count: u64, emit: Emit) {
         }
     }
 }
+
+/// C18: the lines `--trace-assignments` and `-d` print about assignments and built-in components in every cycle (the order
+/// of the lines follows the evaluation order, which depends on hash seeds: they are compared as a sorted list)
+pub fn messages(rng: &mut Rng, count: u64, emit: Emit) {
+    use std::fmt::Write;
+    for _ in 0..count {
+        let profile = *rng.pick(&[Profile::Dag, Profile::Banks, Profile::RegFile, Profile::RegFile, Profile::Memory, Profile::Memory]);
+        let g = proggen::program(rng, profile);
+        let text = proggen::render_program(&g.stmts);
+        let assigns = rng.chance(1, 2);
+        crate::watch::note_text("messages", &text);
+        let full = format!("{}{}", hclrs::verif_hooks::y86_preamble(), text);
+        let sexp = match hclrs::verif_hooks::parse_statements(&full) { Ok(s) => s, Err(_) => { emit(format!("(noparse {})", sexp_escape(&text)), String::from("noparse")); continue; } };
+        let contents = hclrs::FileContents::new_from_data(hclrs::verif_hooks::y86_preamble(), &text, "t.hcl");
+        let result = std::panic::catch_unwind(std::panic::AssertUnwindSafe(|| match hclrs::parse_y86_hcl(&contents) {
+            Err(e) => format!("rej {}", crate::progrun::diag_string(&hclrs::verif_hooks::error_summary(&e))),
+            Ok(program) => {
+                let mut rp = hclrs::RunningProgram::new_y86(program);
+                rp.verif_set_memory(&g.mem);
+                let mut o = hclrs::RunOptions::default();
+                o.set_quiet();
+                if assigns { o.set_trace(); } else { o.set_debug(); o.set_quiet(); o.set_debug(); }
+                rp.set_options(o);
+                let mut all = String::new();
+                let mut fin = String::from("ok");
+                for _ in 0..g.cycles {
+                    let mut out: Vec<u8> = Vec::new();
+                    match rp.step_with_output(&mut out) {
+                        Ok(()) => {
+                            let t = String::from_utf8_lossy(&out).into_owned();
+                            // without --trace-assignments the -d table follows the messages: keep what comes before it
+                            let end = t.find("Values of").unwrap_or(t.len());
+                            let mut lines: Vec<&str> = t[..end].lines().filter(|l| !l.is_empty()).collect();
+                            lines.sort();
+                            all.push_str(&lines.join("\n"));
+                            all.push_str("\n=====\n");
+                        }
+                        Err(e) => { fin = crate::progrun::diag_string(&hclrs::verif_hooks::error_summary(&e)); break; }
+                    }
+                }
+                format!("{}end={}", all, fin)
+            }
+        })).unwrap_or(String::from("PANIC"));
+        let mut memf = String::from("(mem");
+        for (a, b) in &g.mem { write!(memf, " ({} {})", a, b).unwrap(); }
+        memf.push(')');
+        emit(format!("(messages {} {} (cycles {}) (assigns {}) {} (text {}) (stmts {}))", crate::progrun::flags_sexp(), crate::progrun::cls_sexp(&text),
+                     g.cycles, if assigns { 1 } else { 0 }, memf, sexp_escape(&text), sexp), result);
+    }
+}
